@@ -127,6 +127,7 @@ Definition pstep (s : scope) (o : op) : obs * scope :=
                   (BChange (ch_warned r) (scope_eqb (ch_scope r) (rebuild s nc)) true, ch_scope r)
   | OEq other => (BEq (scope_eqb s other) (scope_eqb s other), s)
   | OVolX envs => (BVolX (rmap (eval_at envs) (pvolx s)), s)
+  | OOverwrite kv => (BOver, SMapped s (const_mapping kv))
   end.
 
 Fixpoint prun (s : scope) (ops : list op) : list obs :=
